@@ -11,6 +11,8 @@ WEAK = """    open spec fn wf_ok(&self) -> bool { true }
     open spec fn wf_canon(&self) -> bool { true }
     open spec fn wf_in_rdata() -> bool { true }
     open spec fn wf_nocomp() -> bool { false }
+    open spec fn wf_eqv(&self, other: &Self) -> bool { true }
+    proof fn lemma_det(data: Seq<u8>, p: int, v1: &Self, e1: int, v2: &Self, e2: int) {}
     proof fn lemma_rt(&self, pre: Seq<u8>) {}
 """
 
@@ -54,6 +56,8 @@ impl<'a> NULL<'a> {
     open spec fn wf_canon(&self) -> bool { true }
     open spec fn wf_in_rdata() -> bool { true }
     open spec fn wf_nocomp() -> bool { false }
+    open spec fn wf_eqv(&self, other: &Self) -> bool { self.dview() == other.dview() && self.lfield() == other.lfield() }
+    proof fn lemma_det(data: Seq<u8>, p: int, v1: &Self, e1: int, v2: &Self, e2: int) {}
     proof fn lemma_rt(&self, pre: Seq<u8>) {
         let d = pre + self.wf_enc();
         assert(d.subrange(pre.len() as int, d.len() as int) =~= self.dview());
@@ -68,6 +72,10 @@ impl<'a> NULL<'a> {
     rel = 'dns/rdata/opt.rs'
     c.append(rel, """verus!{
 pub open spec fn opt_items(cs: Seq<OPTCode>) -> Seq<(u16, Seq<u8>)> { cs.map(|i: int, c: OPTCode| (c.code, c.data@)) }
+/// the options fit an RDATA (RDLENGTH is 16 bits)
+pub closed spec fn opt_fits(cs: Seq<OPTCode>) -> bool { tlv16_enc(opt_items(cs)).len() <= 65535 }
+pub proof fn lemma_opt_fits(cs: Seq<OPTCode>)
+    ensures opt_fits(cs) == (tlv16_enc(opt_items(cs)).len() <= 65535) {}
 pub proof fn lemma_opt_items_push(cs: Seq<OPTCode>, c: OPTCode)
     ensures opt_items(cs.push(c)) == opt_items(cs).push((c.code, c.data@)),
             opt_items(cs.push(c)).drop_last() == opt_items(cs),
@@ -78,7 +86,7 @@ pub proof fn lemma_opt_items_push(cs: Seq<OPTCode>, c: OPTCode)
 }
 """)
     OPT_WF = impl_header(c, rel, 'OPT')
-    wrap_type(c, rel, 'OPT', """    open spec fn wf_ok(&self) -> bool { tlv16_ok(opt_items(self.opt_codes@)) }
+    wrap_type(c, rel, 'OPT', """    open spec fn wf_ok(&self) -> bool { tlv16_ok(opt_items(self.opt_codes@)) && opt_fits(self.opt_codes@) }
     open spec fn wf_enc(&self) -> Seq<u8> { tlv16_enc(opt_items(self.opt_codes@)) }
     /// `p` is the offset of the record's TYPE field (the OPT parser reads CLASS and TTL itself); data ends with the RDATA
     open spec fn wf_dec(data: Seq<u8>, p: int, v: &Self, p2: int) -> bool {
@@ -95,20 +103,44 @@ pub proof fn lemma_opt_items_push(cs: Seq<OPTCode>, c: OPTCode)
     open spec fn wf_canon(&self) -> bool { true }
     open spec fn wf_in_rdata() -> bool { true }
     open spec fn wf_nocomp() -> bool { false }
+    open spec fn wf_eqv(&self, other: &Self) -> bool {
+        self.udp_packet_size == other.udp_packet_size && self.version == other.version && opt_items(self.opt_codes@) == opt_items(other.opt_codes@)
+    }
+    proof fn lemma_det(data: Seq<u8>, p: int, v1: &Self, e1: int, v2: &Self, e2: int) { lemma_tlv16_det(data, p + 10, opt_items(v1.opt_codes@), opt_items(v2.opt_codes@), data.len() as int); }
     proof fn lemma_rt(&self, pre: Seq<u8>) { lemma_tlv16_rt(pre, opt_items(self.opt_codes@)); }
-""", verified_inherent=('extract_rcode_from_ttl', 'encode_ttl'), external_trait_fns=('len',))
+""", verified_inherent=('extract_rcode_from_ttl', 'encode_ttl'), external_trait_fns=())
+    # OPT::len: R11 + fold invariant
+    c.sum_loop(rel, OPT_WF, 'len', """
+                invariant
+                    self.wf_ok(), 0 <= vx_it.index@ <= self.opt_codes@.len(),
+                    vx_sum == tlv16_enc(opt_items(self.opt_codes@).subrange(0, vx_it.index@ as int)).len(),
+""", body_pre="""
+                proof {
+                    let i = vx_it.index@ as int;
+                    let items = opt_items(self.opt_codes@);
+                    assert(items[i].1 == o.data@);
+                    lemma_tlv16_len_step(items, i);
+                    lemma_tlv16_len_mono(items, i + 1);
+                }
+""")
+    c.contract(rel, OPT_WF, 'len', "", pre_body="""
+        proof { assert(opt_items(self.opt_codes@).subrange(0, 0) =~= Seq::<(u16, Seq<u8>)>::empty()); }
+""")
+    c.ghost(rel, OPT_WF, 'len', "vx_sum }", """
+            proof { assert(opt_items(self.opt_codes@).subrange(0, self.opt_codes@.len() as int) =~= opt_items(self.opt_codes@)); }
+""", where='before')
     OPT_IMPL = "impl<'a> OPT<'a> {"
     c.contract(rel, OPT_IMPL, 'encode_ttl', """
         ensures r == crate::dns::header::opt_ttl(header.response_code, self.version), // @C09:ttl-layout
 """, pre_body="\n        proof { lemma_tz_consts(); }\n")
     c.contract(rel, OPT_IMPL, 'extract_rcode_from_ttl', """
-        ensures crate::dns::header::rcode_code(header.response_code) < 16 ==>
-            r == rcode_of_code((((ttl >> 24u32) as u16) << 4u16) | crate::dns::header::rcode_code(header.response_code)), // @C09:rcode-recombined
+        ensures r == rcode_of_code((((ttl >> 24u32) as u16) << 4u16) | crate::dns::header::rcode_code(header.response_code)), // @C09:rcode-recombined
 """, pre_body="\n        proof { lemma_tz_consts(); }\n")
     c.ghost(rel, OPT_IMPL, 'extract_rcode_from_ttl', "RCODE::from(rcode as u16)", """
         proof {
             let hc = crate::dns::header::rcode_code(header.response_code);
-            assert(hc < 16 ==> ((((ttl & 0xFF00_0000u32) >> 24u32) << 4u32) | (hc as u32)) as u16 == (((ttl >> 24u32) as u16) << 4u16) | hc) by(bit_vector);
+            assert(hc <= 17);
+            assert(((((ttl & 0xFF00_0000u32) >> 24u32) << 4u32) | (hc as u32)) as u16 == (((ttl >> 24u32) as u16) << 4u16) | hc) by(bit_vector) requires hc <= 17;
         }
 """, where='before')
     c.contract(rel, OPT_WF, 'parse', "", pre_body="""
@@ -177,8 +209,31 @@ impl<'a> TXT<'a> {
     open spec fn wf_canon(&self) -> bool { self.items().len() > 0 }
     open spec fn wf_in_rdata() -> bool { true }
     open spec fn wf_nocomp() -> bool { false }
+    open spec fn wf_eqv(&self, other: &Self) -> bool { self.items() == other.items() && self.sz() == other.sz() }
+    proof fn lemma_det(data: Seq<u8>, p: int, v1: &Self, e1: int, v2: &Self, e2: int) { lemma_lv8_det(data, p, v1.items(), v2.items(), data.len() as int); }
     proof fn lemma_rt(&self, pre: Seq<u8>) { lemma_lv8_rt(pre, self.items()); }
-""", external_trait_fns=())
+""", verified_inherent=('new', 'add_char_string'), external_trait_fns=())
+    # construction keeps the cached size equal to the encoded length: a TXT built through the public API is well formed
+    TXT_IMPL = "impl<'a> TXT<'a> {"
+    c.contract(rel, TXT_IMPL, 'new', """
+        ensures r.items().len() == 0, r.wf_ok(), // @C02:constructed-values-are-ok,C04:txt-size-tracks-content
+""", pre_body="\n        proof { assert(txt_items(Seq::<CharacterString>::empty()) =~= Seq::<Seq<u8>>::empty()); }\n")
+    ADD_SPEC = """
+        requires old(self).wf_ok(), %s
+        ensures
+            %s final(self).items() == old(self).items().push(%s), // @C02:constructed-values-are-ok
+            %s final(self).sz() == old(self).sz() + 1 + %s.len(), // @C04:txt-size-tracks-content
+            %s (final(self).sz() <= 65535 ==> final(self).wf_ok()), // @C02:constructed-values-are-ok,C04:txt-size-tracks-content
+"""
+    c.contract(rel, TXT_IMPL, 'add_char_string', ADD_SPEC % ('char_string.wf_ok(),', '', 'char_string.bytes()', '', 'char_string.bytes()', ''), ret=None,
+               pre_body="\n        let ghost vx_old = self.strings@;\n        let ghost vx_cs = char_string;\n")
+    c.ghost(rel, TXT_IMPL, 'add_char_string', "self.strings.push(char_string);", """
+        proof {
+            lemma_txt_items_push(vx_old, vx_cs);
+            assert(self.strings@ =~= vx_old.push(vx_cs));
+            assert(self.items().drop_last() =~= txt_items(vx_old));
+        }
+""", where='after')
     c.contract(rel, TXT_WF, 'parse', "", pre_body="\n        let ghost p0 = *position as int;\n")
     c.loop_spec(rel, TXT_WF, 'parse', 0, """
             invariant *position <= data.len(), data.len() <= isize::MAX, p0 <= *position,
@@ -233,6 +288,8 @@ pub proof fn lemma_nsec_items_push(ms: Seq<TypeBitMap>, m: TypeBitMap)
     open spec fn wf_canon(&self) -> bool { true }
     open spec fn wf_in_rdata() -> bool { true }
     open spec fn wf_nocomp() -> bool { true }
+    open spec fn wf_eqv(&self, other: &Self) -> bool { self.next_name.lv() == other.next_name.lv() && nsec_items(self.type_bit_maps@) == nsec_items(other.type_bit_maps@) }
+    proof fn lemma_det(data: Seq<u8>, p: int, v1: &Self, e1: int, v2: &Self, e2: int) { lemma_wl8_det(data, p + inplace_len(data, p), nsec_items(v1.type_bit_maps@), nsec_items(v2.type_bit_maps@), data.len() as int); }
     #[verifier::external_body]
     proof fn lemma_rt(&self, pre: Seq<u8>) {}
 """, external_trait_fns=('write_to', 'len'))
@@ -300,6 +357,21 @@ impl<'a> SVCB<'a> {
     open spec fn wf_canon(&self) -> bool { true }
     open spec fn wf_in_rdata() -> bool { true }
     open spec fn wf_nocomp() -> bool { true }
+    open spec fn wf_eqv(&self, other: &Self) -> bool {
+        &&& self.prio() == other.prio() && self.tgt() == other.tgt()
+        &&& forall|k: u16| self.pv().contains_key(k) == other.pv().contains_key(k)
+        &&& forall|k: u16| self.pv().contains_key(k) ==> #[trigger] self.pv()[k]@ == other.pv()[k]@
+    }
+    proof fn lemma_det(data: Seq<u8>, p: int, v1: &Self, e1: int, v2: &Self, e2: int) {
+        let q = p + 2 + inplace_len(data, p + 2);
+        let a = choose|items: Seq<(u16, Seq<u8>)>| #[trigger] tlv16(data, q, items, data.len() as int) && strictly_increasing_u16(items) && params_match(v1.pv(), items);
+        let b = choose|items: Seq<(u16, Seq<u8>)>| #[trigger] tlv16(data, q, items, data.len() as int) && strictly_increasing_u16(items) && params_match(v2.pv(), items);
+        lemma_tlv16_det(data, q, a, b, data.len() as int);
+        assert forall|k: u16| v1.pv().contains_key(k) implies #[trigger] v1.pv()[k]@ == v2.pv()[k]@ by {
+            let i = choose|i: int| 0 <= i < a.len() && (#[trigger] a[i]).0 == k;
+            assert(v1.pv()[a[i].0]@ == a[i].1 && v2.pv()[b[i].0]@ == b[i].1);
+        }
+    }
     #[verifier::external_body]
     proof fn lemma_rt(&self, pre: Seq<u8>) {}
 """, external_trait_fns=('write_to', 'len'))
@@ -379,6 +451,17 @@ pub open spec fn gw_enc(g: &Gateway) -> Seq<u8> {
     open spec fn wf_canon(&self) -> bool { true }
     open spec fn wf_in_rdata() -> bool { true }
     open spec fn wf_nocomp() -> bool { true }
+    open spec fn wf_eqv(&self, other: &Self) -> bool {
+        &&& self.precedence == other.precedence && self.algorithm == other.algorithm && self.public_key@ == other.public_key@
+        &&& (match (self.gateway, other.gateway) {
+                (Gateway::None, Gateway::None) => true,
+                (Gateway::IPv4(a), Gateway::IPv4(b)) => ipv4_octets(a) == ipv4_octets(b),
+                (Gateway::IPv6(a), Gateway::IPv6(b)) => ipv6_octets(a) == ipv6_octets(b),
+                (Gateway::Domain(a), Gateway::Domain(b)) => a.lv() == b.lv(),
+                _ => false,
+            })
+    }
+    proof fn lemma_det(data: Seq<u8>, p: int, v1: &Self, e1: int, v2: &Self, e2: int) {}
     proof fn lemma_rt(&self, pre: Seq<u8>) {
         let d = pre + self.wf_enc();
         let q = pre.len() as int + 3;
@@ -421,6 +504,11 @@ pub open spec fn gw_enc(g: &Gateway) -> Seq<u8> {
     open spec fn wf_canon(&self) -> bool { true }
     open spec fn wf_in_rdata() -> bool { true }
     open spec fn wf_nocomp() -> bool { false }
+    open spec fn wf_eqv(&self, other: &Self) -> bool {
+        self.afi == other.afi && self.idi == other.idi && self.dfi == other.dfi && self.aa == other.aa && self.rsvd == other.rsvd
+        && self.rd == other.rd && self.area == other.area && self.id == other.id && self.sel == other.sel
+    }
+    proof fn lemma_det(data: Seq<u8>, p: int, v1: &Self, e1: int, v2: &Self, e2: int) {}
     proof fn lemma_rt(&self, pre: Seq<u8>) {
         lemma_pow256_vals();
         let d = pre + self.wf_enc();
